@@ -56,4 +56,22 @@ theorem origin_missing_old_code_fails :
     gate (newAdminHandler wCfgEmptyOrigin exAddr false []) (wReq []) = .refuse .originMissing := by
   decide
 
+/-- the permission loop with the `pathFound` flag declared OUTSIDE the loop and never reset (a
+    plausible "tidy-up" of `enforceAccessControls`): once one permission entry has allowed the
+    path, the path test of every later entry passes. -/
+def permsCheckSticky (method path : Bytes) : List Perm → Bool → AclRes
+  | [], _ => .allow
+  | p :: ps, found =>
+    if !methodOK p method then .methodDenied
+    else if !(found || pathOK p path) then .pathDenied
+    else permsCheckSticky method path ps true
+
+/-- … which is NOT the loop of the code: with permissions `[{paths:["/config/"]}, {paths:["/id/"]}]`
+    a request for `/config/x` is allowed by the sticky variant and refused (second entry) by the
+    real loop — the per-entry reset of `pathFound` matters. -/
+theorem permissions_sticky_path_flag_fails :
+    ∃ (perms : List Perm) (m p : Bytes),
+      permsCheckSticky m p perms false = .allow ∧ permsCheck m p perms = .pathDenied :=
+  ⟨[⟨none, some [str "/config/"]⟩, ⟨none, some [str "/id/"]⟩], str "GET", str "/config/x", by decide⟩
+
 end CaddyModel.C13
